@@ -21,9 +21,13 @@ EXTENDS Naturals, Integers, Sequences, FiniteSets, TLC, Json, ExactQ
 CONSTANTS Ns,          \* axis lengths
           Spacings,    \* interval widths (in grid units)
           UnitExps,    \* the axis unit is 2^(k - 8)  (cfg files have no negative numbers)
-          Els          \* element types
+          Els,         \* element types
+          LinUnitExps  \* units 2^(k - 600) of the Linear cases
 
 Kinds == {"NotAKnot", "FirstDeriv", "SecondDeriv", "Natural", "Clamped"}
+\* Linear strategy (C16: affine functions are reproduced): lk = rk = "Linear", p of degree <= 1, and the data are
+\* multiplied by the axis unit - in huge / tiny units (LinUnitExps) the product of a data difference and an axis
+\* offset leaves the floating-point range although every input, the slope and every result are ordinary numbers
 Coefs == {<<c0, c1, c2, c3>> : c0 \in {1}, c1 \in {0, -1}, c2 \in {0, 2}, c3 \in {0, -1, 1}}
 
 \* p satisfies the end condition kind (for FirstDeriv / SecondDeriv the value is supplied, so always)
@@ -35,6 +39,8 @@ Admissible(c, n, lk, rk) ==
 SpacingSeqs(n) == [1..(n - 1) -> Spacings]
 Cases == {[n |-> n, h |-> h, u |-> u, c |-> c, lk |-> lk, rk |-> rk, el |-> e] :
             n \in Ns, h \in UNION {SpacingSeqs(m) : m \in Ns}, u \in UnitExps, c \in Coefs, lk \in Kinds, rk \in Kinds, e \in Els}
+         \cup {[n |-> n, h |-> h, u |-> u, c |-> c, lk |-> "Linear", rk |-> "Linear", el |-> "f64"] :
+            n \in Ns, h \in UNION {SpacingSeqs(m) : m \in Ns}, u \in LinUnitExps, c \in {cc \in Coefs : cc[3] = 0 /\ cc[4] = 0}}
 Good(kk) == Len(kk.h) = kk.n - 1 /\ Admissible(kk.c, kk.n, kk.lk, kk.rk)
 
 VARIABLE cs
@@ -43,14 +49,16 @@ Next == UNCHANGED cs
 Spec == Init /\ [][Next]_cs
 
 \* ---- exact arithmetic ----------------------------------------------------------------------
-UExp == cs.u - 8
+IsLin == cs.lk = "Linear"
+UExp == IF IsLin THEN cs.u - 600 ELSE cs.u - 8
 Unit == QPow2(UExp)
 \* grid positions (in units): start at -2
 RECURSIVE Pos(_)
 Pos(i) == IF i = 1 THEN -2 ELSE Pos(i - 1) + cs.h[i - 1]
 X(i) == QMul(QI(Pos(i)), Unit)
 \* the polynomial in the variable t = x / unit keeps small integer coefficients: p(x) = sum c_d (x / unit)^d
-C(d) == QDiv(QI(cs.c[d + 1]), QPow2(d * UExp))          \* coefficient of x^d
+C(d) == IF IsLin THEN (IF d = 0 THEN QMul(QI(cs.c[1]), Unit) ELSE IF d = 1 THEN QI(cs.c[2]) ELSE QI(0))
+        ELSE QDiv(QI(cs.c[d + 1]), QPow2(d * UExp))          \* coefficient of x^d
 P(x) == QAdd(C(0), QMul(x, QAdd(C(1), QMul(x, QAdd(C(2), QMul(x, C(3)))))))
 D1(x) == QAdd(C(1), QMul(x, QAdd(QMul(QI(2), C(2)), QMul(QI(3), QMul(x, C(3))))))
 D2(x) == QAdd(QMul(QI(2), C(2)), QMul(QI(6), QMul(x, C(3))))
@@ -61,7 +69,8 @@ Row == <<"Mixed", cs.lk, SideVal(cs.lk, X(1)), cs.rk, SideVal(cs.rk, X(cs.n))>>
 
 Build == [ev |-> "B1", id |-> 1, el |-> cs.el, xdef |-> 0, x |-> [i \in 1..cs.n |-> H(X(i))],
           d |-> [s |-> <<cs.n>>, v |-> [i \in 1..cs.n |-> H(P(X(i)))]], dtag |-> "Ix1", store |-> "Owned", dlay |-> "C", xlay |-> "C",
-          st |-> [k |-> "Spline", ex |-> 1, bc |-> "Individual", bs |-> <<1>>, rows |-> <<Row>>],
+          st |-> IF IsLin THEN [k |-> "Linear", ex |-> 1]
+                 ELSE [k |-> "Spline", ex |-> 1, bc |-> "Individual", bs |-> <<1>>, rows |-> <<Row>>],
           poly |-> << [d \in 1..4 |-> H(C(d - 1))] >>]
 
 Half == QDiv(QI(1), QI(2))
